@@ -222,7 +222,12 @@ Section L.
   (* the operations the property C06 lists: assignment (attribute / dotted path / constructor keyword, scalars, maps,
      lists of maps), single-element insertion or replacement in a list of configurations; validation itself never writes *)
   Definition covered (o : cop) : bool :=
-    match o with CSet _ _ | CAppend _ _ | CSetIdx _ _ _ | CValidate _ => true | CLoad _ _ | CReset _ => false end.
+    match o with
+    | CSet _ _ | CAppend _ _ | CSetIdx _ _ _ | CValidate _ => true
+    | CLoads (Ok _) => false          (* a document that parses is a load_tree: it may fail half way *)
+    | CLoads _ => true                (* a document load that fails to parse *)
+    | CLoad _ _ | CReset _ => false
+    end.
 
   Lemma make_item_not_ok : forall w p pos vs fs' x w' it o,
     make_item w p pos vs fs' x = (w', it, o) -> o <> OOk -> it = None.
@@ -252,6 +257,7 @@ Section L.
       destruct o1; try (inversion H; subst; reflexivity).
       destruct (i <? length l)%nat; inversion H; subst; try reflexivity. congruence.
     - inversion H; subst. reflexivity.
+    - destruct parsed; try discriminate; inversion H; subst; reflexivity.
   Qed.
 
   Theorem reject_unchanged : forall ps o w pre c dyn vs fs w' c' oc1,
